@@ -20,6 +20,9 @@ def main():
     seed_dir, name = sys.argv[1], sys.argv[2]
     prop, letter = name.split("-")
     patch = os.path.join(seed_dir, "%s.diff" % letter)
+    dest_name = name
+    if "--as" in sys.argv:
+        dest_name = sys.argv[sys.argv.index("--as") + 1]
     ported = None
     if "--patch" in sys.argv:
         ported = sys.argv[sys.argv.index("--patch") + 1]
@@ -49,7 +52,7 @@ def main():
         if not ok:
             print(o0[-300:] if rc0 else "", ob[-300:] if rcb else "")
             return 1
-        dst = os.path.join("/verif/seeded", name)
+        dst = os.path.join("/verif/seeded", dest_name)
         os.makedirs(dst, exist_ok=True)
         shutil.copy(use, os.path.join(dst, "patch.diff"))
         if ported:
